@@ -426,8 +426,9 @@ def _reference(case):
     ctx2 = {'ref_states': ref_states}
     ref = {'error': r['error'], 'trace_len': len(r['trace']), 'raw_writes': r['raw_writes'], 'trace': r['trace'],
            'ref_states': ref_states,
-           'state': ([int(x) for x in r['state']] if case['algo'] == 'toy' else
-                     (_abstract(bytes.fromhex(r['state_bytes']), ctx2) if r['error'] is None else None)),
+           'state': (None if r['error'] is not None or r['state'] is None else
+                     [int(x) for x in r['state']] if case['algo'] == 'toy' else
+                     _abstract(bytes.fromhex(r['state_bytes']), ctx2)),
            'state_bytes': r.get('state_bytes'),
            'tsv': {n: h for n, _, h in r['dir'] if h is not None}}
   finally:
